@@ -133,7 +133,36 @@ fn eval_enc(d: &[u8]) -> Eval {
                 }
                 c.push('|');
             }
-            ev(format!("ok c={} e={}", f.ckey_count(), f.ekey_count()), true, c)
+            let mut e = ev(format!("ok c={} e={}", f.ckey_count(), f.ekey_count()), true, c);
+            // what the REAL parser read as index entries and page bytes, in file order: rolling
+            // digest of (first key, stored checksum, MD5 of `original_data`) per page; the model
+            // computes the same from the input bytes at ITS offsets (Enc.layout / pageMap)
+            let mut x = 7u64;
+            let own = protected_ranges("enc", d);
+            let own_pages: Vec<(usize, usize)> = own.iter().filter(|(lo, hi)| hi - lo != 16).copied().collect();
+            let mut aux = String::new();
+            let tables: [(&[cascette_formats::encoding::IndexEntry], Vec<&[u8]>, Option<&(usize, usize)>, usize); 2] = [
+                (&f.ckey_index, f.ckey_pages.iter().map(|p| p.original_data.as_slice()).collect(), own_pages.first(), f.header.ckey_page_size()),
+                (&f.ekey_index, f.ekey_pages.iter().map(|p| p.original_data.as_slice()).collect(), own_pages.get(1), f.header.ekey_page_size()),
+            ];
+            for (index, pages, own_range, ps) in tables {
+                for (i, ie) in index.iter().enumerate() {
+                    let page = pages.get(i).copied().unwrap_or(&[]);
+                    let digest = md5::compute(page).0;
+                    let mut v: Vec<u64> = ie.first_key.iter().map(|b| u64::from(*b)).collect();
+                    v.extend(ie.checksum.iter().map(|b| u64::from(*b)));
+                    v.extend(digest.iter().map(|b| u64::from(*b)));
+                    x = fold32(x, &v);
+                    // O: an accepted table has EVERY page verified — the page bytes handed out are the
+                    // input bytes at the documented offset and hash to the stored checksum
+                    let at_own = own_range.and_then(|(lo, hi)| d.get(lo + i * ps..(lo + (i + 1) * ps).min(*hi)));
+                    aux.push(if digest == ie.checksum && at_own == Some(page) { '1' } else { '0' });
+                }
+                aux.push('|');
+            }
+            e.aux = aux;
+            e.follow = Some(("encmap".into(), format!("ok ck={} ek={} especs={} x={x}", f.ckey_index.len(), f.ekey_index.len(), f.espec_table.entries.len())));
+            e
         }
         Ok(Err(e)) => {
             let cls = match e {
@@ -150,7 +179,9 @@ fn eval_enc(d: &[u8]) -> Eval {
                 EncodingError::BinRw(_) => "err:binrw",
                 _ => "err:other",
             };
-            ev(cls, false, "")
+            let mut e = ev(cls, false, "");
+            e.follow = Some(("encmap".into(), "rejected".into()));
+            e
         }
     }
 }
@@ -507,6 +538,10 @@ impl Interp {
                     s.oracle_fail("aidx-footer-hash-bytes-lt-8-accepted", &format!("footer accepted although the hash-size byte at End(-13) is {} (fewer than 8 hash bytes compared)", d[d.len() - 13]), &replay);
                     return;
                 }
+                "enc" if e.accepted && e.aux.contains('0') => {
+                    s.oracle_fail("enc-accepted-page-not-verified", &format!("EncodingFile::parse accepted a table in which a page does not hash to its index checksum (or the page bytes handed out are not the input bytes at the documented offset): per-page verdicts {}", e.aux), &replay);
+                    return;
+                }
                 "upd" if matches!(m, Mutation::None) && e.aux.contains('0') => {
                     s.oracle_fail("load-ignores-update-guard", &format!("UpdateSection::from_bytes returned entries that fail validate_hash_guard (validity {})", e.aux), &replay);
                 }
@@ -688,7 +723,7 @@ impl Interp {
 
     fn exec(&mut self, s: &mut Session, req: &str) {
         let t: Vec<&str> = req.split(' ').collect();
-        let art = !self.kind.is_empty() && self.kind != "cache";
+        let art = !self.kind.is_empty() && self.kind != "cache" && self.kind != "consts";
         match t.as_slice() {
             ["begin", "cache", h, sk, ly] => {
                 let (h, sk, ly) = (h.strip_prefix("hooks=").and_then(|x| x.parse::<u8>().ok()), sk.strip_prefix("skip=").and_then(|x| x.parse::<usize>().ok()), ly.strip_prefix("layers=").and_then(|x| x.parse::<usize>().ok()));
@@ -704,6 +739,20 @@ impl Interp {
                     },
                     _ => s.line(req, "bad-op"),
                 }
+            }
+            ["begin", "consts"] => {
+                self.kind = "consts".into();
+                self.case_lines = vec![req.to_string()];
+                s.line(req, "ok");
+            }
+            // the compiled crates' constants; the model side prints what lib/rs2lean_integrity.py
+            // extracted from the source text (the 100 MiB exemption is private: stated, not read)
+            ["consts"] if self.kind == "consts" => {
+                use cascette_client_storage::index::update::{UPDATE_ENTRY_SIZE, UPDATE_PAGE_SIZE};
+                use cascette_client_storage::storage::local_header::LOCAL_HEADER_SIZE;
+                use cascette_client_storage::storage::segment::SEGMENT_HEADER_SIZE;
+                s.line(req, &format!("lru={},{},{} upd={},{} lhdr={} seg={} skip={}", lru_file::LRU_HEADER_SIZE, lru_file::LRU_ENTRY_SIZE, lru_file::LRU_MAX_VERSION, UPDATE_ENTRY_SIZE, UPDATE_PAGE_SIZE, LOCAL_HEADER_SIZE, SEGMENT_HEADER_SIZE, SKIP_ABOVE));
+                s.case(Some("consts"));
             }
             ["begin", "lhdr", p, hx] => match (p.parse::<usize>().ok(), unhex(hx)) {
                 (Some(p), Some(b)) => self.begin(s, req, "lhdr", p, b),
@@ -750,7 +799,7 @@ impl Interp {
                 _ => s.line(req, "bad-op"),
             },
             // follow-up lines are emitted by run_mut; in a replay file they are skipped here
-            ["fields"] | ["v1ck"] => {}
+            ["fields"] | ["v1ck"] | ["encmap"] => {}
             _ if self.kind == "cache" => self.exec_cache(s, req, &t),
             _ => s.line(req, "bad-op"),
         }
@@ -1294,6 +1343,9 @@ fn main() {
     let mut rng = Rng::new(args.seed);
     let q = |quick: usize, thorough: usize| if th { thorough } else { quick };
 
+    // ---- constants: compiled crates vs the values extracted from the source text
+    it.exec(&mut s, "begin consts");
+    it.exec(&mut s, "consts");
     // ---- LRU checkpoint files: every byte is protected; always exhaustive
     for (n, ver) in [(0usize, 1u16), (1, 1), (3, 0), (q(6, 20), 1)] {
         let d = gen_lru(&mut rng, n, ver);
